@@ -379,10 +379,23 @@ fn poisoned(thorough: bool) -> Acc {
                         for variant in 0..2 {
                             fresh = Matcher::new(cfg.to_config());
                             idx.clear();
-                            let want = if variant == 0 {
-                                call_match(&mut fresh, algo, hay.view(ha), needle.view(na))
-                            } else {
-                                call_indices(&mut fresh, algo, hay.view(ha), needle.view(na), &mut idx)
+                            let want = catch_unwind(AssertUnwindSafe(|| {
+                                if variant == 0 {
+                                    call_match(&mut fresh, algo, hay.view(ha), needle.view(na))
+                                } else {
+                                    call_indices(&mut fresh, algo, hay.view(ha), needle.view(na), &mut idx)
+                                }
+                            }));
+                            let want = match want {
+                                Ok(w) => w,
+                                Err(_) => {
+                                    acc.violation(
+                                        &format!("C10/panic_on_fresh_matcher/{}{}", algo.name(), if variant == 0 { "_match" } else { "_indices" }),
+                                        "a call on a freshly created matcher panicked",
+                                        || json!({"cfg": cfg.tag(), "haystack": show(&hay.chars), "needle": show(&needle.chars), "algo": algo.name(), "indices_variant": variant == 1, "rep": rep_tag(ha, na)}),
+                                    );
+                                    continue;
+                                }
                             };
                             for &b in bytes {
                                 dirty.config = cfg.to_config();
